@@ -26,15 +26,23 @@ def universe(keys: tuple, leaves: tuple, depth: int) -> list[Any]:
     return level
 
 
-def build(spec: tuple, leaves: tuple) -> dict:
-    d: dict = {}
+def build(spec: tuple, leaves: tuple, cls: type = dict) -> dict:
+    d: dict = cls()
     for k, v in spec:
         if v[0] == "L":
             leaf = leaves[v[1]]
             d[k] = list(leaf) if isinstance(leaf, list) else leaf  # (lists are rebuilt so that every dictionary owns its values)
         else:
-            d[k] = build(v[1], leaves)
+            d[k] = build(v[1], leaves, cls)
     return d
+
+
+def orig_class(universe_name: str) -> type:
+    """In the "odict" universes the ORIGINAL side is built from a dict subclass (collections.OrderedDict) at every level: a
+    dictionary is a dictionary, subclass or not."""
+    import collections
+
+    return collections.OrderedDict if universe_name.startswith("odict") else dict
 
 
 def ref_merge(a: Any, b: Any) -> dict:
@@ -76,8 +84,9 @@ UNIVERSES = {
     "a-d4": (("a",), (1, None), 4),
     "falsy-d2": (("a", "b"), (0, ""), 2),
     "emptylist-d2": (("a", "b"), ([], False), 2),
+    "odict-d2": (("a", "b"), (1, None), 2),
 }
-QUICK = ["ab-d2", "dotted-d2", "lists-d2", "abc-d1", "a-d4", "falsy-d2", "emptylist-d2"]
+QUICK = ["ab-d2", "dotted-d2", "lists-d2", "abc-d1", "a-d4", "falsy-d2", "emptylist-d2", "odict-d2"]
 THOROUGH = QUICK + ["ab-d3"]
 
 
@@ -143,8 +152,9 @@ class C17:
             except Exception as e:  # noqa: BLE001
                 report("raises", f"both-none: {type(e).__name__}: {e}", -1, "both-none")
         for i in range(unit["lo"], unit["hi"]):
-            o = build(specs[i], leaves)
-            o_pristine = build(specs[i], leaves)
+            ocls = orig_class(unit["universe"])
+            o = build(specs[i], leaves, ocls)
+            o_pristine = build(specs[i], leaves, ocls)
             # None arguments
             for which in ("orig-none", "over-none"):
                 try:
@@ -153,13 +163,14 @@ class C17:
                     report("raises", f"{which}: {type(e).__name__}: {e}", i, which)
                     continue
                 s["evaluations"] += 1
-                if not strict_eq(r, o_pristine):
-                    report("result", f"{which}: merge with None gave {r!r}, expected {o_pristine!r}", i, which)
+                exp_n = ref_merge(None, o_pristine) if which == "orig-none" else ref_merge(o_pristine, None)
+                if not strict_eq(r, exp_n):
+                    report("result", f"{which}: merge with None gave {r!r}, expected {exp_n!r}", i, which)
                 if r is o:
                     report("not-new", f"{which}: result is the argument object", i, which)
                 if not strict_eq(o, o_pristine):
                     report("mutated", f"{which}: argument changed to {o!r}", i, which)
-                    o = build(specs[i], leaves)
+                    o = build(specs[i], leaves, ocls)
             for j, v in enumerate(objs):
                 try:
                     r = merge_config(o, v)
@@ -179,7 +190,7 @@ class C17:
                     report("not-new", f"result is one of the arguments for {o_pristine!r}, {v!r}", i, j)
                 if o != o_pristine or (strict and not strict_eq(o, o_pristine)):
                     report("mutated", f"original changed from {o_pristine!r} to {o!r} (overrides {build(specs[j], leaves)!r})", i, j)
-                    o = build(specs[i], leaves)
+                    o = build(specs[i], leaves, ocls)
                     bad = True
                 vp2 = None
                 if bad or strict:
@@ -215,7 +226,7 @@ class C17:
         p = rec["program"]
         keys, leaves, depth = UNIVERSES[p["universe"]]
         specs = universe(keys, leaves, depth)
-        o = build(specs[p["original"]], leaves) if p["original"] >= 0 else None
+        o = build(specs[p["original"]], leaves, orig_class(p["universe"])) if p["original"] >= 0 else None
         j = p["overrides"]
         if j == "both-none":
             a, b = None, None
